@@ -18,7 +18,7 @@ from pathlib import Path
 from typing import Any, Dict, List, Optional, Tuple
 
 from .. import core
-from .c07_worker import BACKENDS, COLL, same_up_to_numbering
+from .c07_worker import ALT, BACKENDS, BUILTIN, COLL, same_up_to_numbering
 
 PID = "C07"
 PROP_FILE = "Properties/C07.v"
@@ -38,8 +38,8 @@ ASSUME = [
     "one process, no concurrency",
 ]
 
-FIXED = [True, True, True, True]
-UNFIXED = [False, False, False, False]
+FIXED = [True, True, True, True, True]
+UNFIXED = [False, False, False, False, True]
 
 
 # --------------------------------------------------------------------------------------------
@@ -130,9 +130,9 @@ def model_ops(ops: List[Dict[str, Any]], impl_res: List[Dict[str, Any]]):
 def norm_model_state(st):
     mt, ns, shared, execs = st
     ex = []
-    for b, jobs, inj, ext, found in execs:
+    for b, jobs, inj, ext, found, meths in execs:
         e = ["shared"] if ext[0] == "shared" else ["own", sorted(ext[1])]
-        ex.append([b, jobs, inj, e, found])
+        ex.append([b, jobs, inj, e, found, sorted(set(meths))])
     return [sorted(mt), sorted(ns), sorted(shared), ex]
 
 
@@ -150,7 +150,7 @@ def compare_with_model(model: core.Model, defaults, ops, impl_res, variant=FIXED
         else:
             same = io[0] == "done"
             if same:
-                mv = [sorted(mo[1][0]), sorted(mo[1][1]), mo[1][2], mo[1][3]]
+                mv = [sorted(mo[1][0]), sorted(mo[1][1]), mo[1][2], mo[1][3], sorted(set(mo[1][4]))]
                 if mv != r["view"]:
                     return f"op {i}: what the translation sees: model {mv} / implementation {r['view']}"
                 if mo[2] != r["found"]:
@@ -204,7 +204,9 @@ def classify(ops, res, fres, defaults, model_agrees: bool) -> str:
     default_entries = {tuple(e) for b in BACKENDS for e in defaults[b]}
     backends = {op["backend"] for op in ops}
     if "view" in h and "view" in f:
-        (mh, nh, ih, jh), (mf, nf, i_f, jf) = h["view"], f["view"]
+        (mh, nh, ih, jh, th), (mf, nf, i_f, jf, tf) = h["view"], f["view"]
+        if th != tf:
+            return "c07:leak-method-table"
         if nh != nf:
             return "c07:leak-enums"
         if ih != i_f or jh != jf:
@@ -217,6 +219,8 @@ def classify(ops, res, fres, defaults, model_agrees: bool) -> str:
     if h["outcome"] == f["outcome"] and h["outcome"][0] == "done" and h["found"] != f["found"]:
         return "c07:leak-found-md"
     pre = res[-2]["state"] if len(res) > 1 else None
+    if pre is not None and any(e[5] for e in pre[3]):
+        return "c07:leak-method-table"
     if pre is not None and (pre[2] or any(e[3][0] == "own" and e[3][1] for e in pre[3])):
         return "c07:leak-extended-md"
     return "c07:leak-other"
@@ -230,8 +234,10 @@ def gen_decl(rng: random.Random, backend: str, defaults) -> List[Any]:
     elem = COLL[backend][1]
     if x < 0.30:
         y = rng.random()
-        if y < 0.7:
+        if y < 0.45:
             ty, m = elem, rng.choice(["foo", "foo", "bar"])
+        elif y < 0.7:  # a new method on a type that carries backend default entries
+            ty, m = rng.choice(ALT[backend])[1], rng.choice(["foo", "foo", "pdgId"])
         elif y < 0.85 and defaults[backend]:
             ty, m, _ = rng.choice(defaults[backend])  # overrides a default entry
         else:
@@ -247,7 +253,7 @@ def gen_decl(rng: random.Random, backend: str, defaults) -> List[Any]:
         return ["job", n, [f"{n}=1"] if rng.random() < 0.9 else [f"{n}=2"], [d for d in "abc" if d != n and rng.random() < 0.3]]
     if x < 0.72:
         bk = backend if rng.random() < 0.7 else rng.choice([b for b in BACKENDS if b != backend])
-        return ["collection", bk, rng.choice(["MyColl", "Other"])]
+        return ["collection", bk, rng.choice(["MyColl", "MyColl", BUILTIN[backend], BUILTIN[backend], "Other"])]
     if x < 0.77:
         return ["cppfunction", rng.choice(["my_fn", "my_fn2"])]
     if x < 0.90:
@@ -255,7 +261,7 @@ def gen_decl(rng: random.Random, backend: str, defaults) -> List[Any]:
     return ["bad", rng.choice(["ValueError", "ValueError2", "KeyError", "AttributeError"])]
 
 
-BODIES = [("plain", 35), ("undeclared", 15), ("default", 10), ("enum", 8), ("fail_finder", 6), ("fail_write_op", 10),
+BODIES = [("plain", 30), ("undeclared_alt1", 5), ("undeclared", 15), ("default", 10), ("enum", 8), ("fail_finder", 6), ("fail_write_op", 10),
           ("fail_extract", 4), ("fail_passes", 6), ("undeclared2", 6)]
 
 
@@ -275,6 +281,9 @@ def probes(backend: str) -> List[Dict[str, Any]]:
     for body, md, dk in [
         ("undeclared", [], None),
         ("undeclared2", [["method", elem, "bar", "int"]], None),
+        ("undeclared_alt1", [], None),
+        ("undeclared_alt2", [], None),
+        ("use_mycoll", [], None),
         ("default", [], None),
         ("enum", [], None),
         ("plain", [["ext", "docker", "probe:9"]], None),
@@ -328,6 +337,12 @@ def corpus(defaults) -> List[List[Dict[str, Any]]]:
         [h("cms_aod", "plain", docker=["docker", "image:1"]), h("atlas", "plain", [["ext", "docker", "other:2"]])],  # h_docker
         [h("atlas", "plain", [["ext", "docker", "first:1"]], docker=["docker", "image:1"]), h("atlas", "plain", who=0, docker=["docker", "image:1"])],  # h_found
         [h("atlas", "fail_write_op", [["job", "a", ["a=1"], []]]), h("atlas", "plain", who=0)],  # job-script blocks of a failed query on a reused executor
+        [h("atlas", "plain", [["method", "xAOD::TruthParticle", "foo", "int"]]), h("atlas", "undeclared_alt1")],  # declaration on a type with default entries
+        [h("cms_aod", "fail_write_op", [["method", "reco::GsfElectron", "foo", "int"]]), h("cms_aod", "undeclared_alt1", who=0)],
+        [h("cms_miniaod", "plain", [["method", "pat::Electron", "foo", "int"]]), h("cms_miniaod", "undeclared_alt1")],
+        [h("atlas", "plain", [["collection", "atlas", "Jets"]]), h("atlas", "plain", who=0)],  # h_coll: a declared collection overriding a built-in, reused executor
+        [h("cms_miniaod", "plain", [["collection", "cms_miniaod", "Muons"]]), h("cms_miniaod", "plain", who=0)],
+        [h("atlas", "plain", [["collection", "atlas", "MyColl"]]), h("atlas", "use_mycoll", who=0)],  # a new collection name, reused executor
         [{"op": "create", "backend": "cms_aod"}, h("atlas"), h("cms_aod", "default", who=0)],  # h_cross (reused executor)
         [{"op": "create", "backend": "cms_aod"}, h("atlas"), h("cms_aod", "undeclared2", [["method", "xAOD::TruthParticle", "bar", "int"]])],
     ]
@@ -483,10 +498,10 @@ def check(tier: str, seed: int, t0: float, build: core.BuildStatus) -> int:
         model.close()
     oc.distinct_nontrivial = len(distinct)
     oc.rule = (f"corpus of {n_corpus} witness histories + {n_random} random histories of 1..{max_ops} operations (8% bare executor creations; queries: "
-               f"{', '.join(f'{b} {w}%' for b, w in BODIES)}; 0-4 declarations each over method types (70% on the probe's element type, 15% overriding a default entry), enums, "
-               "inject blocks (conflicting names possible), job scripts (missing/cyclic dependencies possible), collections (30% for a foreign backend), C++ functions, docker metadata, 10% malformed dictionaries; "
+               f"{', '.join(f'{b} {w}%' for b, w in BODIES)}; 0-4 declarations each over method types (45% on the main element type, 25% new methods on the other types that carry backend defaults, 15% overriding a default entry), enums, "
+               "inject blocks (conflicting names possible), job scripts (missing/cyclic dependencies possible), collections (30% for a foreign backend; 40% overriding a built-in name, 40% a new name used by a probe), C++ functions, docker metadata, 10% malformed dictionaries; "
                "25% with add_extended_md; 6% with a missing output directory; 45% on a reused executor; 25% of the histories mix backends), each run in its own fresh interpreter, "
-               "followed by one of 10 probes per backend (50% on a reused executor); the probe alone is run in another fresh interpreter; non-trivial = at least 2 history operations and one declaration; distinct by value")
+               "followed by one of 13 probes per backend (undeclared method on the main element type and on the other built-in types that carry default entries, default-typed method, enum, docker metadata with/without registration, job script, inject block, a built-in collection, a collection name only metadata can declare) (50% on a reused executor); the probe alone is run in another fresh interpreter; non-trivial = at least 2 history operations and one declaration; distinct by value")
     oc.samples = scenarios[n_corpus:n_corpus + 3] + scenarios[:1]
     oc.extra = {"input_distribution": hist, "model_agrees_on": agree, "of_the_disagreeing_histories_the_unfixed_variant_of_the_model_agrees_on": unfixed_agree, "model_available": model is not None,
                 "fresh_baselines": len(fresh_cache), "default_table_sizes": {b: len(defaults[b]) for b in BACKENDS},
